@@ -1042,3 +1042,20 @@ def short_array_chunk(data, chnm, nbytes):
             cut_next = False
         out.append((cid, payload))
     return chunktools.build(out), n
+
+
+def set_chnk(data, value):
+    """Re-encode a synth file so that its (top-level) module declares `value` data chunks - SunVox itself declares
+    what the module needs (a MetaModule: 8 + number of user controllers), this library always the maximum."""
+    import struct as _struct
+
+    from vlib import chunktools
+
+    out = []
+    n = 0
+    for cid, payload in chunktools.parse(data):
+        if cid == b"CHNK" and len(payload) == 4 and n == 0:
+            payload = _struct.pack("<I", value)
+            n += 1
+        out.append((cid, payload))
+    return chunktools.build(out), n
